@@ -77,6 +77,12 @@ class Obj:
     def __repr__(self):
         return f"<{self.kind}>"
 
+    def __str__(self):
+        return str(self.attrs["fmt"]) if "fmt" in self.attrs else f"<{self.kind}>"
+
+    def __format__(self, spec):
+        return format(str(self), spec)
+
 
 class Closure:
     def __init__(self, node, env, module):
@@ -103,6 +109,16 @@ PY_TYPES = {"int": int, "float": float, "str": str, "tuple": tuple, "list": list
             "complex": complex}
 
 
+def _flatten(x):
+    out = []
+    for e in x:
+        if isinstance(e, (list, tuple)):
+            out.extend(_flatten(e))
+        else:
+            out.append(e)
+    return out
+
+
 def _fmt(v):
     """str() of a value inside an f-string; tokens (Obj with a 'fmt' attribute) print their placeholder."""
     if isinstance(v, Obj):
@@ -117,6 +133,16 @@ def _fmt(v):
     if _concrete(v):
         return str(v)
     return None
+
+
+def _hashable_key(v) -> bool:
+    if isinstance(v, (Unk, T)):
+        return False
+    if isinstance(v, tuple):
+        return all(_hashable_key(x) for x in v)
+    if isinstance(v, Obj):
+        return True
+    return _concrete(v) and not isinstance(v, (list, dict, set))
 
 
 def _concrete(v) -> bool:
@@ -143,13 +169,14 @@ class Interp:
         self.builtins = {
             "len": PyFunc(self._len, "len", True), "range": PyFunc(range, "range"), "abs": PyFunc(self._abs, "abs", True),
             "tuple": PyFunc(tuple, "tuple", True), "list": PyFunc(list, "list", True), "dict": PyFunc(dict, "dict", True),
-            "sorted": PyFunc(sorted, "sorted"), "min": PyFunc(min, "min"), "max": PyFunc(max, "max"),
+            "sorted": PyFunc(self._sorted, "sorted", True), "min": PyFunc(min, "min"), "max": PyFunc(max, "max"),
             "sum": PyFunc(sum, "sum"), "int": ClassRef("int"), "float": ClassRef("float"), "str": ClassRef("str"),
             "bool": ClassRef("bool"), "complex": ClassRef("complex"),
             "isinstance": PyFunc(self._isinstance, "isinstance", True), "zip": PyFunc(lambda *a: list(zip(*a)), "zip", True),
             "enumerate": PyFunc(lambda a, start=0: list(enumerate(a, start)), "enumerate", True),
             "reversed": PyFunc(lambda a: list(reversed(a)), "reversed", True),
-            "any": PyFunc(any, "any"), "all": PyFunc(all, "all"), "hasattr": PyFunc(self._hasattr, "hasattr", True), "format": PyFunc(format, "format"),
+            "any": PyFunc(lambda seq: any(self.truth(x) for x in list(seq)), "any", True),
+            "all": PyFunc(lambda seq: all(self.truth(x) for x in list(seq)), "all", True), "hasattr": PyFunc(self._hasattr, "hasattr", True), "format": PyFunc(format, "format"),
             "bin": PyFunc(bin, "bin"), "hex": PyFunc(hex, "hex"), "set": PyFunc(self._set, "set", True),
             "object": ClassRef("object"),
             "filter": PyFunc(lambda f, seq: [x for x in list(seq) if self.truth(self.call(f, [x], {}) if f is not None else x)], "filter", True),
@@ -181,11 +208,19 @@ class Interp:
             "itertools.chain": PyFunc(lambda *a: [y for q in a for y in q], "chain", True),
             "itertools.combinations": PyFunc(lambda a, r: list(__import__("itertools").combinations(list(a), r)), "combinations", True),
             "collections.namedtuple": PyFunc(lambda name, fields, **k: PyFunc(lambda *a, **kw: tuple(a) + tuple(kw[f] for f in fields[len(a):]), name, True), "namedtuple", True),
+            "sympy.utilities.iterables.iterable": PyFunc(lambda x, *a, **k: isinstance(x, (list, tuple, set, dict)), "iterable", True),
+            "sympy.utilities.iterables.flatten": PyFunc(lambda x, *a, **k: _flatten(x), "flatten", True),
+            "inspect": Obj("module:inspect", {
+                "isfunction": PyFunc(lambda x: isinstance(x, (Closure, PyFunc)), "isfunction", True),
+                "isclass": PyFunc(lambda x: isinstance(x, ClassRef), "isclass", True)}),
+            "keyword": Obj("module:keyword", {"iskeyword": PyFunc(__import__("keyword").iskeyword, "iskeyword")}),
+            "builtins": Obj("module:builtins"),
             "string": Obj("module:string", {"ascii_lowercase": "abcdefghijklmnopqrstuvwxyz",
                                             "ascii_uppercase": "ABCDEFGHIJKLMNOPQRSTUVWXYZ"}),
         }
         self.class_call_hook = None
         self.overrides: Dict[str, Any] = {}      # 'module.function' -> value replacing the repository definition
+        self.plain_classes = {"KingdonPrinter": "codegen.KingdonPrinter", "AdditionChains": "codegen.AdditionChains"}
         # classes whose instances (Obj of that kind) resolve attributes through the repository source
         self.instance_classes = {"MultiVector": "multivector.MultiVector", "TapeRecorder": "taperecorder.TapeRecorder",
                                  "GraphWidget": "graph.GraphWidget"}
@@ -220,6 +255,20 @@ class Interp:
         if isinstance(v, T):
             return name in self.tables.get(v.cls, {})
         return hasattr(v, name)
+
+    def _sorted(self, seq, key=None, reverse=False):
+        if isinstance(seq, (Unk, T, Obj)):
+            return Unk("sorted")
+        items = list(seq)
+        if key is None:
+            if not _concrete(items):
+                return Unk("sorted")
+            return sorted(items, reverse=reverse)
+        keys = [self.call(key, [x], {}) for x in items]
+        if not _concrete(keys):
+            return Unk("sorted")
+        order = sorted(range(len(items)), key=lambda i: keys[i], reverse=reverse)
+        return [items[i] for i in order]
 
     def _set(self, *a):
         try:
@@ -515,6 +564,18 @@ class Interp:
             raise Raised("AttributeError", node)
         return Unk(name)
 
+    def _instantiate(self, name, args, kwargs):
+        """Instance of a plain class of the repository: run its __init__ from source."""
+        if name in ("MultiVector", "TapeRecorder", "GraphWidget") or name not in self.plain_classes:
+            return NotImplemented
+        qual = self.plain_classes[name]
+        self.instance_classes[name] = qual
+        o = Obj(name)
+        init = self._class_def(name, "__init__")
+        if isinstance(init, ast.FunctionDef):
+            self.call_function(init, [o] + list(args), kwargs, {}, qual.split(".")[0])
+        return o
+
     def _namedtuple_fields(self, name):
         for mname, mod in self.repo.modules.items():
             for st in mod.tree.body:
@@ -585,6 +646,9 @@ class Interp:
                 r = self.class_call_hook(f.name, args, kwargs)
                 if r is not NotImplemented:
                     return r
+            inst = self._instantiate(f.name, args, kwargs)
+            if inst is not NotImplemented:
+                return inst
             fields = self._namedtuple_fields(f.name)
             if fields is not None:
                 vals = dict(zip(fields, args))
@@ -735,9 +799,14 @@ class Interp:
             pass
         elif isinstance(st, (ast.FunctionDef,)):
             env.local[st.name] = Closure(st, env.flat(), env.module)
-        elif isinstance(st, (ast.Import, ast.ImportFrom)):
+        elif isinstance(st, ast.Import):
             for al in st.names:
-                env.local[(al.asname or al.name).split(".")[0]] = Obj("module:" + al.name)
+                env.local[(al.asname or al.name).split(".")[0]] = self.standins.get(al.name, Obj("module:" + al.name))
+        elif isinstance(st, ast.ImportFrom):
+            for al in st.names:
+                nm = al.asname or al.name
+                full = f"{st.module}.{al.name}"
+                env.local[nm] = self.standins.get(full, ClassRef(nm) if nm[:1].isupper() else Unk(f"import {nm}"))
         elif isinstance(st, ast.Assert):
             if not self.truth(self.eval(st.test, env), st.test):
                 raise Raised("AssertionError", st)
@@ -794,7 +863,7 @@ class Interp:
         elif isinstance(target, ast.Subscript):
             base = self.eval(target.value, env)
             idx = self.eval(target.slice, env)
-            if isinstance(base, (dict, list)) and _concrete(idx):
+            if isinstance(base, (dict, list)) and (_concrete(idx) or (isinstance(base, dict) and _hashable_key(idx))):
                 try:
                     base[idx] = value
                 except Exception:
@@ -968,7 +1037,7 @@ class Interp:
             return Unk(f"{base.kind}[...]")
         if isinstance(base, (Unk, T)):
             return Unk("subscript")
-        if not _concrete(idx):
+        if not _concrete(idx) and not (isinstance(base, dict) and _hashable_key(idx)):
             return Unk("subscript")
         try:
             return base[idx]
